@@ -338,7 +338,8 @@ RModel(seedling) ==
        dvs |-> RBuild("dv", Len(grps), z), dvcls |-> [b |-> sb, c |-> ns - sb, o |-> 0],
        funcs |-> RBuild("func", nf, z),
        x0 |-> IF R(1..2) = 1 THEN <<>> ELSE RLin(0, nv), d0 |-> IF R(1..2) = 1 THEN <<>> ELSE RLin(0, nac),
-       sufs |-> SelectSeq(sufs0, LAMBDA s : (s.kind = 1 => ncons > 0) /\ (s.kind = 2 => no > 0)),
+       sufs |-> LET ok == SelectSeq(sufs0, LAMBDA s : (s.kind = 1 => ncons > 0) /\ (s.kind = 2 => no > 0)) IN
+                IF Len(ok) = 2 /\ ok[1].name = ok[2].name /\ ok[1].kind = ok[2].kind THEN <<ok[1]>> ELSE ok,
        colnames |-> IF cn THEN RBuild("colname", nv, z) ELSE <<>>,
        rownames |-> IF rn THEN RBuild("rowname", ncons + no, z) ELSE <<>>,
        opts |-> IF vb THEN [n |-> 3, o |-> <<1, 3, 0, 0, 0, 0, 0, 0, 0>>, vbtol |-> RAtom(0)]
